@@ -7,7 +7,7 @@ export GOFLAGS=-mod=mod GOPROXY=off GOSUMDB=off GOTOOLCHAIN=local VERIF_ROOT="$(
 OUT=$(mktemp -d /var/tmp/xpv-cover.XXXXXX)
 trap 'rm -rf "$OUT"' EXIT
 mkdir -p work/cover
-go build -tags verif -cover -coverpkg=github.com/antchfx/xpath -o "$OUT/xpv-cov" ./cmd/xpv || exit 2
+go build -tags verif -cover -coverpkg=verif/cmd/xpv,github.com/antchfx/xpath -o "$OUT/xpv-cov" ./cmd/xpv || exit 2
 IDS="${@:-C01 C02 C03 C04 C05 C06 C07 C08 C09 C10 C11 C12 C13 C14 C15 C16 C17}"
 for id in $IDS; do
   mkdir -p "$OUT/cov/$id"
@@ -15,7 +15,7 @@ for id in $IDS; do
   echo "$id exit=$?"
 done
 dirs=$(ls -d "$OUT"/cov/* | paste -sd,)
-go tool covdata textfmt -i="$dirs" -o work/cover/profile.txt
+go tool covdata textfmt -i="$dirs" -pkg=github.com/antchfx/xpath -o work/cover/profile.txt
 go tool cover -func=work/cover/profile.txt > work/cover/func.txt
 tail -1 work/cover/func.txt
 # uncovered blocks, merged per file:line
